@@ -318,8 +318,22 @@ func runGraph(prop string, mix opMix) func(s *Sim) {
 					return client.SendNodePoints(a.Nc, n, append(data.Points(nil), pts...), true)
 				})
 			case 9: // writes that must be refused
-				kind := wl.Draw(6)
+				kind := wl.Draw(7)
 				switch kind {
+				case 6: // the reserved word "root" as the node of an edge below a node of the tree: closes a cycle through the top
+					if !fenceOpen("cycle") {
+						continue
+					}
+					p := pickNode()
+					t := nextT()
+					addOp(fmt.Sprintf("REFUSED edge that puts \"root\" under %s", p), func(a *Actor) error {
+						tr.Process()
+						if !tr.Ref.IsAncestorAny("root", p) {
+							return nil // not (yet) attached to the tree by what the store has accepted so far: not sent
+						}
+						return client.SendEdgePoints(a.Nc, "root", p, data.Points{{Type: data.PointTypeTombstone, Time: t},
+							{Type: data.PointTypeNodeType, Text: "device", Time: t}}, true)
+					})
 				case 5: // a move that must be refused (below one of its own descendants): the request as a whole leaves no trace
 					if !fenceOpen("cycle") {
 						continue
